@@ -162,6 +162,17 @@ check("C15",
       "Bound: templates as listed; the operator quantifier is discharged by forking (parser is control code), the solver decides the evaluation equivalence. " + TRUST,
       "SSA symbolic execution + SMT, infix vs prefix differential with a reference precedence table", "DESIGN.md §4 C15")
 
+check("C20",
+      "(*rand.Rand).Intn is replaced by a nondeterministic stub (arbitrary value in [0,n)), so one symbolic run of the real GenerateRandomExpr covers "
+      "every seed. Levels 0 and 1 are explored exhaustively for both result types and the option subsets; variables carry arbitrary int64/bool values "
+      "or DNE and numeric literals are arbitrary in range, so at level 1 the operands of the generated operator range over every possible child result. "
+      "Asserted: the expression is well-formed and compiles with the variables given, evaluation does not fail, and the reported Res equals both the "
+      "reference semantics (short-circuit evaluator / strong Kleene with DNE) and the engine (Eval / TryEval). Counterexamples are replayed natively "
+      "with a scripted rand.Source that makes Intn return the solver's draws.",
+      "Levels >=2 are not run: the code computing Res from the children's Res is identical at every level >=1 and its inputs are covered by the level-1 "
+      "operands; the remaining step is compositionality of evaluation (C01/C05), an assumption. Known finding listed in known_findings.json: level 0 returns bare atoms that do not compile. " + TRUST,
+      "SSA symbolic execution with rand as nondeterministic stub + SMT vs reference evaluators", "DESIGN.md §4 C20")
+
 def main():
     checks = []
     for pid in ALL:
